@@ -294,3 +294,79 @@ def _move(p):
         from .record import Multi
         return Multi(run(*ops))
     return call
+
+
+# ------------------------------------------------- C10 reductions, linear algebra
+def _np_axis(p):
+    v = p.get("axis", "none")
+    if isinstance(v, str):
+        return None
+    return tuple(v) if isinstance(v, list) else v
+
+
+def reduce_fields(fn, p, nargs=1):
+    """The TLA-facing, uniformly typed fields of a reduce event."""
+    ax = p.get("axis", "none")
+    none = isinstance(ax, str)
+    axes = [] if none else (list(ax) if isinstance(ax, list) else [ax])
+    return {"axes": axes, "axis_none": none, "keepdims": bool(p.get("keepdims", False)),
+            "n": int(p.get("n", 1)), "has_pre": bool(p.get("has_pre", False)), "has_app": bool(p.get("has_app", False))}
+
+
+@action("reduce")
+def _reduce(p):
+    import numpoly
+    fn, sp, q = p["fn"], p.get("spelling", "numpoly"), p.get("p", {})
+    mod = numpy if sp == "numpy" else numpoly
+    axis = _np_axis(q)
+    kd = {"keepdims": True} if q.get("keepdims") else {}
+
+    def run(*ops):
+        a = ops[0]
+        if fn in ("sum", "prod"):
+            if sp == "method":
+                return getattr(a, fn)(axis=axis, **kd)
+            if sp == "reduce":
+                uf = numpy.add if fn == "sum" else numpy.multiply
+                return uf.reduce(a, axis=axis, **kd)
+            return getattr(mod, fn)(a, axis=axis, **kd)
+        if fn == "mean":
+            if sp == "method":
+                return a.mean(axis=axis, **kd)
+            return mod.mean(a, axis=axis, **kd)
+        if fn == "cumsum":
+            if sp == "method":
+                return a.cumsum(axis=axis)
+            if sp == "accumulate":
+                return numpy.add.accumulate(a, axis=axis)
+            return mod.cumsum(a, axis=axis)
+        if fn == "diff":
+            kw = {}
+            i = 1
+            if q.get("has_pre"):
+                kw["prepend"] = ops[i]
+                i += 1
+            if q.get("has_app"):
+                kw["append"] = ops[i]
+            return mod.diff(a, n=q.get("n", 1), axis=axis, **kw)
+        if fn == "ediff1d":
+            kw = {}
+            i = 1
+            if q.get("has_pre"):
+                kw["to_begin"] = ops[i]
+                i += 1
+            if q.get("has_app"):
+                kw["to_end"] = ops[i]
+            return mod.ediff1d(a, **kw)
+        if fn == "inner":
+            return mod.inner(a, ops[1])
+        if fn == "outer":
+            return mod.outer(a, ops[1])
+        if fn == "matmul":
+            if sp == "operator":
+                return a @ ops[1]
+            return mod.matmul(a, ops[1])
+        if fn == "det":
+            return numpoly.det(a) if sp != "numpy" else numpy.linalg.det(a)
+        raise ValueError(fn)
+    return run
